@@ -341,3 +341,79 @@ pub fn unforked_convergence(w: &World, member: &str, rep: &mut Report) {
         );
     }
 }
+
+/// Restart hazards on one unforked SQLite client (scripted, enumerated): (a) calls that are *refused* (reads for a group
+/// the client does not hold) at every position of a short history, (b) a restart that finds expired snapshots to prune
+/// (time-to-live of one second, the history spread over wall-clock seconds). Everything stored after such a call or such
+/// a restart must still be there after the next restart: the final observable state equals the run without any of it.
+pub fn restart_hazards(rep: &mut Report) {
+    use mdk_core::prelude::*;
+    let mut sc = crate::families::base("c11-hazards", &["A", "B", "Z"], &["A", "B"], &[], vec![crate::scenario::act("A", ActKind::Rename("one".into()), 10).then(vec![crate::scenario::act("B", ActKind::Msg("after-one".into()), 5), crate::scenario::act("A", ActKind::Rename("two".into()), 20)])]);
+    sc.cfg.snapshot_ttl_seconds = 1;
+    let w = match build_world(&sc, Bk::Sqlite) {
+        Ok(w) => w,
+        Err(e) => {
+            rep.machinery_errors.push(format!("c11 hazards world: {}", e.0));
+            return;
+        }
+    };
+    let wids = w.welcome_ids();
+    let mut seq: Vec<usize> = w.settle_order.iter().copied().filter(|i| match w.pool[*i].kind { EvKind::Commit => w.pool[*i].child.as_ref().map(|c| crate::props_e1::on_spine(&w, c)).unwrap_or(false), _ => crate::props_e1::on_spine(&w, &w.pool[*i].node) }).collect();
+    seq.sort_by_key(|i| (w.pool[*i].node.len(), w.pool[*i].kind == EvKind::Commit, *i));
+    let bogus = GroupId::from_slice(&[0xEE; 16]);
+    let refused_calls = |c: &Client| -> Vec<String> {
+        let mut v = Vec::new();
+        v.push(format!("get_messages:{}", crate::with_mdk!(c, m => m.get_messages(&bogus, None)).is_err()));
+        v.push(format!("get_relays:{}", crate::with_mdk!(c, m => m.get_relays(&bogus)).is_err()));
+        v.push(format!("get_members:{}", crate::with_mdk!(c, m => m.get_members(&bogus)).is_err()));
+        v.push(format!("get_group:{}", crate::with_mdk!(c, m => m.get_group(&bogus)).map(|g| g.is_none()).unwrap_or(true)));
+        v.push(format!("create_message:{}", crate::with_mdk!(c, m => m.create_message(&bogus, rumor(&c.keys, "nowhere", now()))).is_err()));
+        v.push(format!("self_update:{}", crate::with_mdk!(c, m => m.self_update(&bogus)).is_err()));
+        v
+    };
+    let run = |refused_at: Option<usize>, ttl_restart_after: Option<usize>, final_restart: bool| -> (Vec<String>, String) {
+        let mut c = w.initial["Z"].fork();
+        let mut results = Vec::new();
+        for (k, i) in seq.iter().enumerate() {
+            if refused_at == Some(k) {
+                let _ = refused_calls(&c);
+            }
+            let out = step_on(&w, c, Action::Deliver(*i));
+            results.push(out.result);
+            c = out.client;
+            if ttl_restart_after == Some(k) {
+                std::thread::sleep(std::time::Duration::from_millis(2100));
+                c = c.restart();
+            }
+        }
+        if refused_at == Some(seq.len()) {
+            let _ = refused_calls(&c);
+        }
+        if final_restart {
+            c = c.restart();
+        }
+        (results, c.obs(&wids).to_string())
+    };
+    let (ref_results, ref_obs) = run(None, None, false);
+    let mut cases: Vec<(String, Option<usize>, Option<usize>)> = Vec::new();
+    for k in 0..=seq.len() {
+        cases.push((format!("refused-calls-before-step-{k}"), Some(k), None));
+    }
+    for k in 0..seq.len() {
+        if w.pool[seq[k]].kind == EvKind::Commit {
+            cases.push((format!("restart-with-expired-snapshots-after-step-{k}"), None, Some(k)));
+        }
+    }
+    for (label, refused_at, ttl_after) in cases {
+        let (res, obs) = run(refused_at, ttl_after, true);
+        rep.case(&format!("hazard|{label}|{}", res.join("+")));
+        rep.evaluations += 1;
+        let kind = if refused_at.is_some() { "refused-calls" } else { "restart-that-prunes-expired-snapshots" };
+        if res != ref_results {
+            rep.finding(format!("C11|restart-hazard|{kind}|results-differ"), format!("{label}: the deliveries answer {res:?} instead of {ref_results:?}"), json!({"case": label, "backend": "Sqlite"}));
+        } else if obs != ref_obs {
+            rep.finding(format!("C11|restart-hazard|{kind}|state-after-the-next-restart-differs"), format!("{label}: after the history and one more restart the observable state differs from the run without it (something stored in between did not reach the file)"), json!({"case": label, "backend": "Sqlite", "with": obs, "without": ref_obs}));
+        }
+    }
+    rep.states += 1;
+}
